@@ -216,6 +216,10 @@ def yescrypt_param_sweep(rng, full=False):
     for nl, r, p in ((8, 512, 1), (8, 511, 1), (9, 512, 2), (9, 256, 1), (9, 255, 1), (10, 384, 3), (10, 385, 3), (7, 1024, 1)):
         out.append(yescrypt_params(nl, r, p, 0, "$y$") + ysalt(rng, 8))
     out.append(yescrypt_params(8, 512, 1, 0, "$gy$") + ysalt(rng, 8))
+    # ... and the pre-hash pass together with t > 0 and p > 1 (the pre-hash itself always runs with t = 0)
+    for nl, r, p, tt in ((8, 512, 1, 1), (8, 512, 1, 2), (12, 32, 1, 1), (12, 32, 1, 2), (12, 32, 2, 1), (9, 512, 2, 3)):
+        out.append(yescrypt_params(nl, r, p, tt, "$y$") + ysalt(rng, 8))
+    out.append(yescrypt_params(12, 32, 1, 1, "$gy$") + ysalt(rng, 8))
     # scrypt with r*p >= 2^14: PBKDF2's block counter passes 65535 (N = 4 keeps it at about a second)
     out += ["$7$0/......2.." + salt(rng, 8), "$7$00......0.." + salt(rng, 8)]
     for nl in (4, 6, 8):
@@ -411,7 +415,11 @@ def kdf_rejected_params():
         for fl in ".", "/", "0", "1", "2", "i", "k", "l", "T":           # classic / WORM / unsupported pwxform flavours
             out += [yparams_full(tag, fl, 6, 5) + ys, yparams_full(tag, fl, 6, 5, t=1) + ys]
         out += [yparams_full(tag, "j", 1, 5) + ys, yparams_full(tag, "j", 2, 5, p=2) + ys, yparams_full(tag, "j", 3, 5, p=2) + ys,
-                yparams_full(tag, "j", 3, 5, p=3) + ys, yparams_full(tag, "j", 6, 5, p=40) + ys]                 # N <= 3, N/p <= 3
+                yparams_full(tag, "j", 3, 5, p=3) + ys, yparams_full(tag, "j", 6, 5, p=40) + ys,                 # N <= 3, N/p <= 3
+                # floor(N/p) exactly 3 (refused) next to exactly 4 (accepted)
+                yparams_full(tag, "j", 4, 5, p=5) + ys, yparams_full(tag, "j", 5, 5, p=9) + ys, yparams_full(tag, "j", 5, 5, p=10) + ys,
+                yparams_full(tag, "j", 6, 5, p=17) + ys, yparams_full(tag, "j", 6, 5, p=21) + ys, yparams_full(tag, "j", 4, 5, p=4) + ys,
+                yparams_full(tag, "j", 5, 5, p=8) + ys, yparams_full(tag, "j", 6, 5, p=16) + ys]
         out += [yparams_full(tag, "j", 6, 5, g=1) + ys, yparams_full(tag, "j", 6, 5, g=2) + ys, yparams_full(tag, "j", 6, 5, p=2, t=1, g=1) + ys]
         out += [yparams_full(tag, "j", 6, 5, nrom=10) + ys, yparams_full(tag, "j", 6, 5, p=2, t=1, g=1, nrom=12) + ys, yparams_full(tag, "j", 6, 5, t=0, nrom=3) + ys]
     for r, pp in (".....", "/...."), ("/....", "....."), (".....", "....."), ("....E", "....E"), ("zzzzz", "zzzzz"), ("....2", "....2"):
